@@ -35,6 +35,9 @@ func scramble(x *big.Int, r *rng) {
 }
 
 func emitAliasRoot(e *emitter, r *rng, v, deg int, viaRat bool, num, den *big.Int, moment string) {
+	if e.exhausted() {
+		return
+	}
 	k := 260
 	origNum, origDen := new(big.Int).Set(num), new(big.Int).Set(den)
 	argNum, argDen := new(big.Int).Set(num), new(big.Int).Set(den)
@@ -98,6 +101,9 @@ func rootFromInt(v, deg int, x *big.Int) Num { return newRootRaw(v, deg, x, nil)
 func rootFromRat(v, deg int, q *big.Rat) Num { return newRootRaw(v, deg, nil, q) }
 
 func emitAliasRat(e *emitter, r *rng, v int, num, den *big.Int, moment string) {
+	if e.exhausted() {
+		return
+	}
 	k := 260
 	rat := new(big.Rat).SetFrac(new(big.Int).Set(num), new(big.Int).Set(den))
 	keep := new(big.Rat).Set(rat)
@@ -158,6 +164,7 @@ func genC14(e *emitter, r *rng, tier string) {
 		ns := testNumber(r, 1+r.intn(150), r.intn(4), r.rangeInt(-2, 4), 0)
 		desc := "TM" + strings.TrimPrefix(ns.desc, "T")
 		emitScriptLine(e, 3, desc, "fwd:0:320;at:0:0;at:0:101;str:0")
+		emitScriptLine(e, 3, "TS"+strings.TrimPrefix(ns.desc, "T"), "fwd:0:320;at:0:0;str:0")
 		if ns.length >= 0 {
 			fdesc := "FM:" + strings.Split(ns.desc, ":")[1] + ":" + strings.Split(ns.desc, ":")[3]
 			emitScriptLine(e, 3, fdesc, "fwd:0:320;back:0:320;exact:0")
